@@ -86,6 +86,7 @@ def describe(kn, params, private):
 
 
 def run(ctx):
+    made_for_unsuitable(ctx)
     rng = ctx.rng
     jws_part(ctx)
     jwe_part(ctx)
@@ -227,6 +228,90 @@ def jwe_part(ctx):
             ctx.report("ECDH-1PU encryption succeeded with an unsuitable sender key", {"alg": alg, "recipient": rk, **describe(sk_name, params, private)}, "jwe-1pu:unsuitable-sender")
         elif out != "ok" and want:
             ctx.extra["suitable_refused"] = ctx.extra.get("suitable_refused", 0) + 1
+
+
+def made_for_unsuitable(ctx):
+    """Tokens produced OUTSIDE the library for a key the algorithm must refuse (wrong curve / wrong AES size), so that
+    only joserfc's own key gate - not the mathematics - stands between the consumer and a success."""
+    import base64
+    import hashlib
+    from cryptography.hazmat.primitives import hashes
+    from cryptography.hazmat.primitives.asymmetric import ec
+    from cryptography.hazmat.primitives.asymmetric.utils import decode_dss_signature
+    from cryptography.hazmat.primitives.ciphers.aead import AESGCM
+    from joserfc import jws, jwe
+    from joserfc.jwk import OctKey
+    from harness import jweref as R
+    rng = ctx.rng
+
+    def b64(b):
+        return base64.urlsafe_b64encode(b).rstrip(b"=")
+    all_names = list(jwe.JWERegistry.algorithms["alg"]) + list(jwe.JWERegistry.algorithms["enc"]) + ["DEF"]
+    # ES* with a key on another curve (every R||S width the verifier might expect)
+    H = {"ES256": hashes.SHA256, "ES384": hashes.SHA384, "ES512": hashes.SHA512, "ES256K": hashes.SHA256}
+    width = {"P-256": 32, "P-384": 48, "P-521": 66, "secp256k1": 32}
+    for alg, crv in EC_CURVE.items():
+        for kn in ("p256", "p384", "p521", "k256"):
+            kcrv = K._SPECS[kn][1]
+            if kcrv == crv:
+                continue
+            native = J.native_priv(kn)
+            hseg = b64(json.dumps({"alg": alg}, separators=(",", ":")).encode())
+            pseg = b64(b"payload")
+            r, s_ = decode_dss_signature(native.sign(hseg + b"." + pseg, ec.ECDSA(H[alg]())))
+            for w in sorted({width[kcrv], width[crv]}):
+                if r >= 1 << (8 * w) or s_ >= 1 << (8 * w):
+                    continue
+                tok = hseg + b"." + pseg + b"." + b64(r.to_bytes(w, "big") + s_.to_bytes(w, "big"))
+                for private in (False, True):
+                    try:
+                        jws.deserialize_compact(tok, K.key(kn, private=private), algorithms=J.ALL_ALGS)
+                        out = "ok"
+                    except Exception as e:  # noqa: BLE001
+                        out = err_name(e)
+                    ctx.count("made-for-unsuitable", ("jws", alg, kn, w, private), True, out)
+                    if out == "ok":
+                        ctx.report(f"{alg} verification succeeded with a key on {kcrv}", {"alg": alg, "key": kn, "token": tok.decode()}, f"unsuitable-made:jws:{alg}")
+    # AES key wrap / GCM key wrap / dir with a key of another AES size
+    sizes = {"oct16": 16, "oct24": 24, "oct32": 32}
+    for alg in ("A128KW", "A192KW", "A256KW", "A128GCMKW", "A192GCMKW", "A256GCMKW", "dir"):
+        for kn, n in sizes.items():
+            for enc in ("A128GCM", "A256GCM", "A128CBC-HS256"):
+                need = ENC_CEK[enc] // 8 if alg == "dir" else KW_SIZE[alg] // 8
+                if n == need or (alg == "dir" and enc.endswith("HS256")):
+                    continue
+                kbytes = K.key(kn).raw_value
+                hdr = {"alg": alg, "enc": enc}
+                cek = kbytes if alg == "dir" else rng.randbytes(ENC_CEK[enc] // 8)
+                if alg == "dir":
+                    ek = b""
+                elif alg.endswith("GCMKW"):
+                    iv = rng.randbytes(12)
+                    o = AESGCM(kbytes).encrypt(iv, cek, None)
+                    ek = o[:-16]
+                    hdr.update({"iv": b64(iv).decode(), "tag": b64(o[-16:]).decode()})
+                else:
+                    ek = R.key_wrap(kbytes, cek)
+                pseg = b64(json.dumps(hdr, separators=(",", ":")).encode())
+                iv = rng.randbytes(12 if enc.endswith("GCM") else 16)
+                try:
+                    if enc.endswith("GCM"):
+                        o = AESGCM(cek).encrypt(iv, b"plaintext", pseg)
+                        ct, tag = o[:-16], o[-16:]
+                    else:
+                        ct, tag = R.content_encrypt(enc, cek, iv, pseg, b"plaintext")
+                except Exception:  # noqa: BLE001
+                    continue
+                tok = b".".join([pseg, b64(ek), b64(iv), b64(ct), b64(tag)])
+                try:
+                    r = jwe.decrypt_compact(tok, OctKey.import_key(kbytes), algorithms=all_names)
+                    out = "ok"
+                except Exception as e:  # noqa: BLE001
+                    out = err_name(e)
+                ctx.count("made-for-unsuitable", ("jwe", alg, enc, kn), True, out)
+                if out == "ok":
+                    ctx.report(f"{alg}/{enc} decryption succeeded with a {8 * n}-bit key", {"alg": alg, "enc": enc, "key": kn, "token": tok.decode()},
+                               f"unsuitable-made:jwe:{alg}")
 
 
 def unsafe_oct(ctx):
